@@ -4,6 +4,7 @@ import KcpVerif.Lemmas.KcpLive
 import KcpVerif.Lemmas.KcpState
 import KcpVerif.Lemmas.KcpTimer
 import KcpVerif.Lemmas.KcpMove
+import KcpVerif.Lemmas.SysCleanRun
 /-! C02 — eventual delivery: a healed network always drains the backlog. -/
 namespace KcpVerif.Props
 open KcpVerif KcpVerif.Gen KcpVerif.Kcp KcpVerif.Live
@@ -404,5 +405,73 @@ example : ¬ MoveFix (wndSize
   have := h { sn := 1 } [] rfl rfl
   revert this
   decide
+
+/-! ### Tier 2: the closed two-endpoint system (Model/Sys.lean)
+
+What is proved here is the bounded acknowledgement latency on a path that is clean from the start
+(`C02_clean_ack_latency`); the drain theorem from an arbitrary state is stated (`C02_drain_full`). -/
+
+/-- **Bounded acknowledgement latency.**  On the closed system with loss-free in-order links of
+one-way delay `D`, started with the settings `CleanInit` (in particular `2 D + interval_B <
+rx_minrto_A`), in every reachable state every segment still waiting in A's send buffer was
+transmitted at a time `t` with `now ≤ t + 2 D + interval_B`: its PUSH is still on the way, or its ACK
+is listed at B with B's next flush at most `D + interval_B` after `t`, or a frame whose `una` covers
+it is on the way back.  Time cannot pass `t + 2 D + interval_B` with the segment un-acknowledged
+(a `tick` is refused while a datagram or a flush is due), so the send buffer drains with this delay.
+Same run hypotheses as `C18_clean_path_partial` (`RunOk`: room in B's receive queue, fewer than 2^31
+segments). -/
+theorem C02_clean_ack_latency (A B : Kcp) (D t0 : Nat) (ndA ndB : Bool) (hinit : SysC.CleanInit A B D)
+    (evs : List Sys.Ev) (hrun : SysC.RunOk A.snd_nxt (Sys.init A B D t0 ndA ndB) evs) :
+    ∀ x ∈ (Sys.run (Sys.init A B D t0 ndA ndB) evs).A.snd_buf, x.acked = false ∧
+      ∃ t, x.ts = Sys.clk t ∧ t ≤ (Sys.run (Sys.init A B D t0 ndA ndB) evs).now ∧
+        (Sys.run (Sys.init A B D t0 ndA ndB) evs).now ≤ t + 2 * D + B.interval.toNat := by
+  obtain ⟨gab, gba, hc, _⟩ := SysC.clean_run (p := SysC.parOf A B) evs _ [] []
+    (SysC.clean_init A B D t0 ndA ndB hinit) hrun
+  have hD : ∀ (evs : List Sys.Ev) (s : Sys.State), (Sys.run s evs).D = s.D := by
+    intro evs
+    induction evs with
+    | nil => intro s; rfl
+    | cons ev rest ih =>
+      intro s
+      show (Sys.run (Sys.step s ev) rest).D = s.D
+      rw [ih]
+      cases ev <;> simp only [Sys.step] <;> repeat' split
+      all_goals rfl
+  intro x hx
+  obtain ⟨h1, _, _, _, _, _, t, ht, htn, hloc⟩ := hc.aseg x hx
+  refine ⟨h1, t, ht, htn, ?_⟩
+  have hDD : (Sys.run (Sys.init A B D t0 ndA ndB) evs).D = D := hD evs _
+  show _ ≤ t + 2 * D + (SysC.parOf A B).I
+  unfold SysC.Loc at hloc
+  rw [hDD] at hloc
+  rcases hloc with ⟨d, hd, hd1, _⟩ | ⟨_, hn⟩ | ⟨d, hd, hd1, _⟩
+  · have := hc.tab d hd; omega
+  · have := hc.tnf.1; omega
+  · have := hc.tba d hd; omega
+
+/-- the Tier-1 invariants of one endpoint, as far as the drain theorem needs them -/
+def C02_EndpointOk (k : Kcp) : Prop := Total.InvK k ∧ TimerInv k ∧ 0 < k.rcv_wnd.toNat ∧ k.rcv_wnd.toNat < 2 ^ 31
+
+/-- **the drain theorem (full statement, not proved)**: from ANY pair of endpoint states that satisfy
+the per-endpoint invariants (arbitrary history of losses, duplicates and reorderings before `T0`),
+with ANY datagrams still in flight (arbitrary bytes — whatever the past left behind), if from now on
+the links are the fair FIFO links of `Sys` (every datagram delivered after `D`) and the reader keeps
+reading, then for every number of writer bytes already queued there is a schedule-independent bound
+after which `A.WaitSnd = 0`: every sufficiently long run whose clock has advanced far enough has an
+empty send side.  (`fragments ≤ rcv_wnd` — finding O1 — is needed in message mode.) -/
+def C02_drain_full : Prop :=
+  ∀ (s : Sys.State), C02_EndpointOk s.A → C02_EndpointOk s.B → s.A.conv = s.B.conv →
+    (∀ x ∈ s.A.snd_queue ++ s.A.snd_buf, x.frg.toNat < s.B.rcv_wnd.toNat) →
+    ∃ T : Nat, ∀ evs : List Sys.Ev, (∀ ev ∈ evs, ∀ b, ev ≠ .send b) →
+      s.now + T ≤ (Sys.run s evs).now → (Sys.run s evs).A.waitSnd = 0
+
+/-- non-vacuity of the latency theorem: the run of `Props/C18.lean` (nodelay, `D = 3`), stopped while
+the segment is un-acknowledged at `now = 1003 ≤ 1000 + 2·3 + 10` -/
+example : SysC.RunOk (Kcp.noDelay (Kcp.new 7) 1 10 2 1).snd_nxt
+    (Sys.init (Kcp.noDelay (Kcp.new 7) 1 10 2 1) (Kcp.noDelay (Kcp.new 7) 1 10 2 1) 3 1000)
+    [.send [1, 2, 3], .flushA, .tick, .tick, .tick] := by decide
+example : ((Sys.run (Sys.init (Kcp.noDelay (Kcp.new 7) 1 10 2 1) (Kcp.noDelay (Kcp.new 7) 1 10 2 1) 3 1000)
+    [.send [1, 2, 3], .flushA, .tick, .tick, .tick]).A.snd_buf.map (fun x => (x.sn, x.ts, x.acked))) =
+    [(0, 1000, false)] := by decide
 
 end KcpVerif.Props
